@@ -104,22 +104,23 @@ func readBERHeader(b []byte) (h berHeader, ok bool) {
 		h.length = -1
 		h.issues = append(h.issues, "indefinite-length")
 	default:
-		n := int(l & 0x7f)
-		if n > 8 || i+n > len(b) {
+		n := int(l & 0x7f) // up to 127 length octets
+		if i+n > len(b) {
 			return h, false
 		}
 		if b[i] == 0 {
 			h.issues = append(h.issues, "length-leading-zero")
 		}
 		for j := 0; j < n; j++ {
+			if h.length >= 1<<54 {
+				h.length = 1 << 62 // saturate: larger than any input
+				continue
+			}
 			h.length = h.length<<8 | int64(b[i+j])
 		}
 		i += n
-		if h.length >= 0 && h.length < 0x80 {
+		if h.length < 0x80 {
 			h.issues = append(h.issues, "non-minimal-length")
-		}
-		if h.length < 0 {
-			return h, false
 		}
 	}
 	h.hdrLen = i
